@@ -43,10 +43,18 @@ def c09(prop, tier):
     bs = []
     for k, n in enumerate([2, 3, 4]):
         names = ['d1', 'd2', 'd3', 'd4'][:n]
-        sims, _ = vlib.tlc_simulate('Isolation.tla', iso_cfg(names, 9), 'C09-sim%d' % n, 300 if thorough else 8, 12, SEED + k)
+        sims, _ = vlib.tlc_simulate('Isolation.tla', iso_cfg(names, 9), 'C09-sim%d' % n, 300 if thorough else 16, 12, SEED + k)
         for b in sims:
             b['dbs'] = names
         bs += sims
+    # fixed behaviours (paths of the specification that random simulation meets only by chance): the remote writer is
+    # accepted by an open database first, then its heads reach the database that does not name it
+    for n in (2, 3, 4):
+        names = ['d1', 'd2', 'd3', 'd4'][:n]
+        for k, seq in enumerate([[('RemoteWrite', 'd1'), ('Replicate', 'd1'), ('RemoteWrite', 'd2'), ('Replicate', 'd2'), ('Write', 'd1')],
+                                 [('Write', 'd2'), ('RemoteWrite', 'd1'), ('RemoteWrite', 'd2'), ('Replicate', 'd1'), ('Replicate', 'd2'), ('Reload', 'd2'), ('Write', 'd2')]]):
+            steps = [{'action': 'Init', 'args': [], 'state': {}}] + [{'action': a, 'args': [d], 'state': {}} for a, d in seq]
+            bs.append({'id': 'accepted-elsewhere-%d-%d' % (n, k), 'steps': steps, 'dbs': names})
     for b in bs:
         if len({s['args'][0] for s in b['steps'] if s['args']}) >= 2:
             ck.distinct.add(vlib.beh_signature(b))
